@@ -191,6 +191,8 @@ func init() {
 				Case{"doc": Doc{ch(Frac{100000, 1}), ch(Frac{100000, 1}), ch(Frac{79621, 1})}, "flags": Flags{}, "tracks": 2},
 				Case{"doc": Doc{ch(Frac{100000, 1}), rs(Frac{100000, 1}), ch(Frac{100000, 1}), rs(Frac{200000, 1}), rs(Frac{200000, 3}), ch(Frac{1, 1})}, "flags": Flags{}, "tracks": 4},
 				Case{"doc": Doc{rs(Frac{150000, 1}), rs(Frac{150000, 1}), ch(Frac{1, 1})}, "flags": Flags{}},
+				Case{"doc": Doc{ch(Frac{140000, 1}), ch(Frac{140000, 1}), {Deg: "5", Sym: "7", Vals: []Frac{{1, 1}}}}, "flags": Flags{}, "tracks": 6},
+				Case{"doc": Doc{ch(Frac{140000, 1}), ch(Frac{139000, 1}), {Deg: "5", Sym: "9", Vals: []Frac{{1, 1}}}}, "flags": Flags{}, "tracks": 7},
 				Case{"doc": Doc{ch(Frac{1, 1}), rs(Frac{150000, 1}), rs(Frac{150000, 1})}, "flags": Flags{}})
 			for _, dg := range []string{"4473924", "4473925", "4473926", "5000000", "8947849", "10000000", "44739243", "100000000000", "18446744073709551616", "99999999999999999999999999"} {
 				cases = append(cases, Case{"absurd": dg, "rest": false}, Case{"absurd": dg, "rest": true, "tracks": 2})
@@ -273,6 +275,20 @@ func init() {
 					Case{"doc": Doc{chd("1", 100000), {Rest: true, Vals: []Frac{{100000, 1}}, BPM: 90}, chd("5", 100000), {Rest: true, Vals: []Frac{{250000, 1}}}, chd("1", 1)}, "flags": Flags{}, "tracks": n},
 					Case{"absurd": "4473925", "rest": n == 3, "tracks": n})
 			}
+			for _, n := range []int{2, 3} {
+				longRest := func(t string) Inst { return Inst{Rest: true, Vals: []Frac{{100000, 1}}, Txt: t} }
+				cases = append(cases,
+					Case{"doc": Doc{chd("1", 1), longRest("a"), longRest("b"), longRest("c"), chd("5", 1)}, "flags": Flags{}, "tracks": n},
+					Case{"doc": Doc{chd("1", 1), longRest("a"), {Rest: true, Vals: []Frac{{100000, 1}}, BPM: 80}, {Rest: true, Vals: []Frac{{79000, 1}}, Mrk: "m"}, chd("5", 1)}, "flags": Flags{}, "tracks": n},
+					Case{"doc": Doc{{Deg: "1", Sym: "", Vals: []Frac{{140000, 1}}}, {Deg: "4", Sym: "", Vals: []Frac{{140000, 1}}}, {Deg: "5", Sym: "7", Vals: one()}}, "flags": Flags{}, "tracks": n + 4})
+			}
+			// chords far above the MIDI range (whatever becomes of their pitches, time goes on): after a rest, on N tracks
+			for _, n := range []int{1, 2, 5} {
+				for _, dg := range []string{"50", "47", "b112", "64"} {
+					cases = append(cases, Case{"doc": Doc{{Deg: "1", Sym: "", Vals: one()}, {Rest: true, Vals: []Frac{{3, 2}}}, {Deg: dg, Sym: "7", Vals: []Frac{{2, 1}}}, {Rest: true, Vals: one()}, {Deg: "5", Sym: "", Vals: one()}},
+						"flags": Flags{}, "tracks": n})
+				}
+			}
 			// more tracks than any worker pool or block size a writer might use
 			for _, n := range []int{1027, 2050} {
 				cases = append(cases, Case{"doc": docs[1], "flags": Flags{}, "tracks": n}, Case{"doc": docs[3], "flags": Flags{}, "tracks": n})
@@ -313,6 +329,12 @@ func init() {
 			cases = append(cases, Case{"doc": dyn, "flags": Flags{}, "tracks": 1})
 			for _, v := range dynamics {
 				cases = append(cases, Case{"doc": Doc{{Deg: "1", Sym: "", Vals: one()}, {Deg: "1", Sym: "", Vals: one(), Vel: "mf"}}, "flags": Flags{Vel: v}, "tracks": 1})
+			}
+			// consecutive keys that share a tonic pitch and a mode but not a signature (enharmonic moves), and a key restated
+			for _, pr := range [][2]string{{"F#", "Gb"}, {"Gb", "F#"}, {"C#", "Db"}, {"Db", "C#"}, {"D#m", "Ebm"}, {"Ebm", "D#m"}, {"B", "Cb"}, {"Cb", "B"}, {"G#m", "G#m"}, {"C", "Am"}, {"A", "F#m"}} {
+				cases = append(cases,
+					Case{"doc": Doc{{Deg: "1", Sym: "", Vals: one(), Key: pr[0]}, {Deg: "4", Sym: "", Vals: one(), Key: pr[1]}, {Deg: "5", Sym: "", Vals: one(), Key: pr[0]}}, "flags": Flags{}, "tracks": 1},
+					Case{"doc": Doc{{Deg: "1", Sym: "", Vals: one()}, {Rest: true, Vals: one(), Key: pr[1]}, {Deg: "5", Sym: "", Vals: one()}}, "flags": Flags{Key: pr[0]}, "tracks": 2})
 			}
 			// time signatures at and beyond what the event can carry (one byte for the numerator, one for the exponent)
 			for _, m := range []Frac{{255, 4}, {256, 4}, {300, 4}, {257, 8}, {4, 128}, {4, 256}, {4, 512}, {3, 1}, {1, 1}, {255, 128}, {65536, 4}, {4, 65536}} {
